@@ -142,7 +142,8 @@ def cfgSrc : Cfg :=
     tupleStarCount := JediModel.Gen.C02.starCountTuple
     dictStarCount := JediModel.Gen.C02.starCountDict
     skipUnknown := JediModel.Gen.C02.keysUsedSkipsUnknown
-    resetNonMatching := JediModel.Gen.C02.resetsNonMatching }
+    resetNonMatching := JediModel.Gen.C02.resetsNonMatching
+    starNamesInParamDict := JediModel.Gen.C02.starNamesInParamDict }
 
 /-- f(a, b=D, *rest, k, **opts)   (names: a=0 b=1 rest=2 k=3 opts=4) -/
 def sigExample : List Param :=
@@ -160,28 +161,41 @@ theorem bind_source_is_modelled :
     JediModel.Gen.C02.pushBackIsCons = true ∧ JediModel.Gen.C02.keywordsAfterPositionals = true := by
   decide
 
-/-- **jedi binds what CPython binds.**  For every signature Python's grammar allows (`WFSig`:
-distinct names, `Pos* Star? KwOnly* DStar?`, any defaults) and every call `f(*pos, **kws)` with
-distinct keywords that CPython accepts - any number of positional and keyword arguments - jedi
-binds every parameter to exactly what CPython binds: the same argument, the default, the same
-tuple for `*args`, the same dict in the same order for `**kwargs`.  Extra hypothesis
-`kwsAvoidStarNames` (no keyword is spelled like the `*args`/`**kwargs` parameter): forced, see
-`bind_agrees_full_witness`. -/
-theorem bind_agrees_partial (ps : List Param) (pos : List Arg) (kws : List (Name × Arg))
+/-- **jedi binds what CPython binds** (FULL statement, no extra hypothesis).  For every signature
+Python's grammar allows (`WFSig`: distinct names, `Pos* Star? KwOnly* DStar?`, any defaults) and
+every call `f(*pos, **kws)` with distinct keywords that CPython accepts - any number of
+positional and keyword arguments, keywords spelled like `*args`/`**kwargs` included - jedi binds
+every parameter to exactly what CPython binds: the same argument, the default, the same tuple
+for `*args`, the same dict in the same order for `**kwargs`. -/
+theorem bind_agrees (ps : List Param) (pos : List Arg) (kws : List (Name × Arg))
     (env : List (Name × Bound)) (hwf : WFSig ps = true) (hkn : (kws.map Prod.fst).Nodup)
-    (havoid : kwsAvoidStarNames ps kws = true) (h : bindPy ps pos kws = some env) :
-    bindJ cfgSrc ps (pos.map (fun a => (none, a)) ++ kws.map (fun (k, a) => (some k, a))) = env := by
+    (h : bindPy ps pos kws = some env) :
+    bindJ cfgSrc ps (callArgs pos kws) = env := by
   rw [bind_source_is_modelled.1]
   unfold bindPy at h
   split at h
   · rename_i hacc
     cases h
     simp only [accepts, Bool.and_eq_true, Bool.not_eq_true'] at hacc
-    exact bindJ_eq_fill ps pos kws hwf hkn havoid hacc.1.1.1
+    exact bindJ_eq_fill ps pos kws hwf hkn hacc.1.1.1
   · cases h
 
+/-- the same with the argument list written out -/
+theorem bind_agrees_unfolded (ps : List Param) (pos : List Arg) (kws : List (Name × Arg))
+    (env : List (Name × Bound)) (hwf : WFSig ps = true) (hkn : (kws.map Prod.fst).Nodup)
+    (h : bindPy ps pos kws = some env) :
+    bindJ cfgSrc ps (pos.map (fun a => (none, a)) ++ kws.map (fun (k, a) => (some k, a))) = env :=
+  bind_agrees ps pos kws env hwf hkn h
+
+/-- a keyword spelled like `**kwargs` is within the theorem: `def f(a, *rest, **opts)` called
+`f(A0, opts=A1, rest=A2)` (names a=0 rest=1 opts=2) -/
+example : WFSig [⟨0, .pos, false⟩, ⟨1, .star, false⟩, ⟨2, .dstar, false⟩] = true ∧
+    ([(2, 11), (1, 12)].map Prod.fst).Nodup ∧
+    bindPy [⟨0, .pos, false⟩, ⟨1, .star, false⟩, ⟨2, .dstar, false⟩] [10] [(2, 11), (1, 12)] =
+      some [(0, .arg 10), (1, .tuple []), (2, .dict [(2, 11), (1, 12)])] := by
+  decide
+
 example : WFSig sigExample = true ∧ ([(3, 13), (9, 14)].map Prod.fst).Nodup ∧
-    kwsAvoidStarNames sigExample [(3, 13), (9, 14)] = true ∧
     bindPy sigExample [10, 11, 12] [(3, 13), (9, 14)] =
       some [(0, .arg 10), (1, .arg 11), (2, .tuple [12]), (3, .arg 13), (4, .dict [(9, 14)])] := by
   decide
@@ -191,29 +205,36 @@ repeated arguments): as long as there are not too many positional arguments, jed
 the left-to-right fill - a missing required parameter is `unknown`. -/
 theorem bind_best_effort (ps : List Param) (pos : List Arg) (kws : List (Name × Arg))
     (hwf : WFSig ps = true) (hkn : (kws.map Prod.fst).Nodup)
-    (havoid : kwsAvoidStarNames ps kws = true) (hlen : tooManyPositional ps pos = false) :
+    (hlen : tooManyPositional ps pos = false) :
     bindJ cfgSrc ps (callArgs pos kws) = fill kws (extraKws ps kws) ps pos := by
   rw [bind_source_is_modelled.1]
-  exact bindJ_eq_fill ps pos kws hwf hkn havoid hlen
+  exact bindJ_eq_fill ps pos kws hwf hkn hlen
 
 /-- f(a, b=D, *rest, k, **opts) called f(A0, x=A1): CPython raises (k missing), jedi: k unknown -/
-example : WFSig sigExample = true ∧ kwsAvoidStarNames sigExample [(9, 11)] = true ∧
+example : WFSig sigExample = true ∧
     tooManyPositional sigExample [10] = false ∧ bindPy sigExample [10] [(9, 11)] = none ∧
     bindJ cfgSrc sigExample (callArgs [10] [(9, 11)]) =
       [(0, .arg 10), (1, .default), (2, .tuple []), (3, .unknown), (4, .dict [(9, 11)])] := by
   decide
 
-/-- FULL statement (without `kwsAvoidStarNames`) is false of the unchanged code:
-`def f(**kw): ...` / `f(kw=A)` - CPython: `kw = {'kw': A}`; jedi looks the keyword up in
-`param_dict`, which also holds `kw`, binds the parameter `kw` to `A` itself and never builds the
-dict.  Likewise `def g(*rest, **kw)` / `g(rest=A)`. (names: kw=0 rest=1; argument 7) -/
-theorem bind_agrees_full_witness :
+/-- **The repair matters.**  With `param_dict` holding the `*args`/`**kwargs` names too (the
+source before `if not param.star_count:` - finding C02-keyword-spelled-like-star-param) the
+statement is false: `def f(**kw): ...` / `f(kw=A)` - CPython: `kw = {'kw': A}`; the old code
+looked the keyword up in `param_dict`, bound the parameter `kw` to `A` itself and never built
+the dict.  Likewise `def g(*rest, **kw)` / `g(rest=A)`.  The source as it is now agrees with
+CPython on both. (names: kw=0 rest=1; argument 7) -/
+theorem bind_agrees_old_code_witness :
     WFSig [⟨0, .dstar, false⟩] = true ∧ ([(0, 7)].map Prod.fst).Nodup ∧
-    kwsAvoidStarNames [⟨0, .dstar, false⟩] [(0, 7)] = false ∧
     bindPy [⟨0, .dstar, false⟩] [] [(0, 7)] = some [(0, .dict [(0, 7)])] ∧
-    bindJ cfgSrc [⟨0, .dstar, false⟩] (callArgs [] [(0, 7)]) = [(0, .arg 7)] ∧
+    bindJ { cfgSrc with starNamesInParamDict := true } [⟨0, .dstar, false⟩] (callArgs [] [(0, 7)]) =
+      [(0, .arg 7)] ∧
+    bindJ cfgSrc [⟨0, .dstar, false⟩] (callArgs [] [(0, 7)]) = [(0, .dict [(0, 7)])] ∧
+    WFSig [⟨1, .star, false⟩, ⟨0, .dstar, false⟩] = true ∧ ([(1, 7)].map Prod.fst).Nodup ∧
     bindPy [⟨1, .star, false⟩, ⟨0, .dstar, false⟩] [] [(1, 7)] = some [(1, .tuple []), (0, .dict [(1, 7)])] ∧
-    bindJ cfgSrc [⟨1, .star, false⟩, ⟨0, .dstar, false⟩] (callArgs [] [(1, 7)]) = [(1, .arg 7), (0, .dict [])] := by
+    bindJ { cfgSrc with starNamesInParamDict := true } [⟨1, .star, false⟩, ⟨0, .dstar, false⟩]
+      (callArgs [] [(1, 7)]) = [(1, .arg 7), (0, .dict [])] ∧
+    bindJ cfgSrc [⟨1, .star, false⟩, ⟨0, .dstar, false⟩] (callArgs [] [(1, 7)]) =
+      [(1, .tuple []), (0, .dict [(1, 7)])] := by
   decide
 
 /-- **Shape of the result**, whatever the source constants, the signature and the arguments
